@@ -66,7 +66,8 @@ def main():
             res['error'] = 'patch does not apply: ' + out[-500:]
             print(json.dumps(res, indent=1))
             return 2
-        rc, out = sh(f'cd {scratch} && {PY} -m pytest -q -p no:cacheprovider --timeout=900 -n 8 2>&1 | tail -3', timeout=1800)
+        # (the suite leaves temporary directories behind: they go with the scratch copy)
+        rc, out = sh(f'cd {scratch} && mkdir -p .tmp && TMPDIR={scratch}/.tmp {PY} -m pytest -q -p no:cacheprovider --timeout=900 -n 8 2>&1 | tail -3', timeout=1800)
         m = re.search(r'(\d+) passed', out)
         res['tests'] = dict(passed=int(m.group(1)) if m else None, tail=re.sub(r'\x1b\[[0-9;]*m', '', out)[-200:].strip(),
                             failed=bool(re.search(r'\d+ (failed|error)', re.sub(r'\x1b\[[0-9;]*m', '', out))))
